@@ -139,6 +139,23 @@ func roundTrip(c *core.Ctx, t reflect.Type, v reflect.Value) error {
 		}
 		return fmt.Errorf("%s: JSON %s parses to a different value: %v", name, trunc(string(data)), err)
 	}
+	// the same document parsed into a destination that held another value of the type before (a reused
+	// variable, or an element of a reused slice: encoding/json hands such elements to UnmarshalJSON as they are)
+	if prev, gerr := genValue(c, t); gerr == nil {
+		dst := reflect.New(t)
+		dst.Elem().Set(prev)
+		if err := json.Unmarshal(data, dst.Interface()); err != nil {
+			return fmt.Errorf("%s: own JSON %s does not parse into a used destination: %v", name, trunc(string(data)), err)
+		}
+		if err := tlbgen.Equal(v, dst.Elem()); err != nil {
+			if cl == "extern-0-bits" && c.Known("C20-msgaddress-extern-empty") {
+				return nil
+			}
+			pj, _ := json.Marshal(prev.Interface())
+			return fmt.Errorf("%s: JSON %s parsed into a destination that held %s gives a different value: %v", name, trunc(string(data)), trunc(string(pj)), err)
+		}
+		c.Class("parsed into a used destination")
+	}
 	// the same value embedded in containers: value/pointer receiver mistakes surface here
 	type wrap struct {
 		X any
